@@ -66,10 +66,6 @@ package ledgerstore
 //@   trusted   -- header index map update; frame assumed: only this.headerIndex
 //@   modifies mapof(this.headerIndex)
 
-//@ func (*LedgerStoreImp).executeBlock
-//@   trusted   -- provisional (its own contract is the subject of C15/C11): assumed not to modify the fields of LedgerStoreImp or the block
-//@   modifies Store
-
 //@ func (*LedgerStoreImp).GetBlockRootWithPreBlockHashes
 //@   property C13
 //@   mode abstract
@@ -176,3 +172,48 @@ package ledgerstore
 
 //@ func (*StateStore).GetBlockRootWithPreBlockHashes
 //@   trusted   -- root of the block-hash accumulator extended by the given hashes (merkle package, C06); reads only
+
+// ---- C15: transaction execution is atomic -------------------------------------------------------------
+// Ghost state: Store = the view of contract storage through the transaction cache; Block = the block-level
+// overlay. CacheDB.Reset makes Store fall back to Block; CacheDB.Commit copies Store into Block.
+
+//@ func (*StateStore).HandleInvokeTransaction
+//@   property C15
+//@   mode abstract
+//@   requires notify != nil
+//@   modifies Store, Block, notify.State, notify.Notify   -- assumed frame (abstract mode)
+//@   ghost var committed bool = false
+//@   ghost var svc *native.NativeService = nil
+//@   set after "service, err := native.NewNativeService(cache, tx, block.Header.Timestamp, block.Header.Height, block.Hash(), block.Header.ChainID, invoke.Code, false)" : svc := service
+//@   set after "service.GetCacheDB().Commit()" : committed := true
+//@   -- the transaction's writes reach the block only through the one Commit, made on the cache it executed on
+//@   callsite[c15-commit-own-cache] Commit#1 requires recv == cache
+//@   -- a failed transaction leaves no trace in block-level state, contributes no cross-chain records, no events, no success mark
+//@   ensures[c15-failed-no-state] r1 != nil ==> Block == old(Block)
+//@   ensures[c15-failed-no-leaves] r1 != nil ==> r0 == nil
+//@   ensures[c15-failed-no-events] r1 != nil ==> notify.State == old(notify.State) && notify.Notify == old(notify.Notify)
+//@   -- a successful transaction keeps all of its writes, is marked successful, and hands back the leaves it produced
+//@   ensures[c15-success-committed] r1 == nil ==> committed && Block == Store
+//@   ensures[c15-success-marked] r1 == nil ==> notify.State == event.CONTRACT_STATE_SUCCESS
+//@   ensures[c15-success-leaves] r1 == nil ==> svc != nil && r0 == svc.crossHashes
+
+//@ func (*LedgerStoreImp).handleTransaction
+//@   property C15
+//@   mode abstract
+//@   requires this != nil
+//@   modifies Store, Block   -- assumed frame (abstract mode)
+//@   ghost var herr bool = false
+//@   set after "crossHashes, err := this.stateStore.HandleInvokeTransaction(this, overlay, cache, tx, block, notify)" : herr := err != nil
+//@   -- the execution record starts as FAILED and is freshly made for this transaction
+//@   callsite[c15-starts-failed] HandleInvokeTransaction#1 requires arg5 != nil && arg5.State == event.CONTRACT_STATE_FAIL && len(arg5.Notify) == 0 && arg2 == cache && arg3 == tx
+//@   -- a failed transaction: record still FAILED with no events, no leaves, block-level state untouched
+//@   ensures[c15-failed] r2 == nil && herr ==> r0 != nil && r0.State == event.CONTRACT_STATE_FAIL && len(r0.Notify) == 0 && r1 == nil && Block == old(Block)
+//@   ensures[c15-success] r2 == nil && !herr ==> r0 != nil && r0.State == event.CONTRACT_STATE_SUCCESS && Block == Store
+
+//@ func (*LedgerStoreImp).executeBlock
+//@   property C15
+//@   mode abstract
+//@   requires this != nil && block != nil
+//@   modifies Store, Block   -- assumed frame (abstract mode): the fields of LedgerStoreImp and the block are not written
+//@   -- every transaction starts from the block-level state: nothing a previous transaction buffered but did not commit is visible
+//@   callsite[c15-isolated] handleTransaction#1 requires Store == Block && arg1 == cache && arg3 == tx
